@@ -38,6 +38,12 @@ def spec_level(chk, quick):
                 raise vlib.ToolError("self-test failed: %s produced no counterexample" % name)
             chk.add_tlc(r)
     chk.part("S_deviations_have_counterexamples", deviations=["D_ReplayTail", "MultiPiece", "D_ErrAdvance"])
+    # liveness of the design under weak fairness: the protocol-following caller finishes (temporal property, no constraint)
+    cfg = mk_cfg("spec/mc/MC_StripStreamLive.cfg", os.path.join(wd, "live.cfg"), {"L": 3 if quick else 4, "MaxFaults": 2 if quick else 3})
+    r = vlib.tlc_run("spec/mc/MC_StripStream.tla", cfg, "c06-live", workers=4, timeout=3000)
+    if not r.ok:
+        raise vlib.ToolError("ideal StripStream algorithm does not terminate under fairness (%s):\n%s" % (r.violated, vlib.tlc_counterexample(r)))
+    chk.add_tlc(r, "S_ideal_termination_under_fairness")
 
 
 def active_flags(chk, vh):
